@@ -7,6 +7,11 @@ _NOTE = ("Trusted: Coq 8.16.1 kernel + vm_compute; the Go harness (generators, p
          "differential evaluation on generated inputs, not by proof; ")
 
 TEXT = {
+    "C05": {
+        "level": "The refinement builder, Value.Range, Includes and SafeKnownPrefix are modelled in Gallina; for all call sequences: the original value and marks are never changed, the dynamic value ignores refinement, a known value is returned unchanged or rejected, nullness contradictions and crossing length bounds are rejected and the tighter length bound is kept; the safe prefix is proved a byte prefix of the normalised form of every extension relative to two laws of x/text that are tested on every run; the delimiter table is regenerated from the source and its ASCII obligation re-proved. Every generated sequence is compared with the implementation (result value, range accessors, Includes) and checked against an independent interval/prefix model.",
+        "note": _NOTE + "Unicode normalisation and segmentation are oracles (answers shipped with cases); numeric-bound faithfulness is oracle-checked, not a theorem (partial).",
+        "technique": "Coq proof over a Gallina model of the refinement builder + translator for the delimiter table + model/implementation correspondence by vm_compute",
+    },
     "C03": {
         "level": "Number equality is proved an equivalence for all numbers; Equals/RawEquals agreement on primitives and null equality are theorems; the hash-bucket set algorithm is proved to refine the mathematical set modulo any equivalence that is coherent with its hash (membership, no two equal members, exactly the inputs, insertion-order independence; all Add histories), and the model's set operations on strings are proved to be that algorithm. Hash coherence and trichotomy are refuted for numbers by kernel-computed witnesses that every run replays on the implementation (known findings). Values, hashes, iteration orders and whole ValueSet histories are compared with the implementation state by state.",
         "note": _NOTE + "structural RawEquals/Equals laws on nested values are oracle-checked, not yet theorems (partial).",
